@@ -34,6 +34,8 @@ class Out:
         self.funcs = []
         self.counter = 0
         self.last_code = None  # (line, col_end) of the last code token emitted
+        self.cls = []          # names of the enclosing classes that can have constructors (None: anonymous / namespace / interface)
+        self.after_spec = False
 
     def fresh(self, prefix="fn"):
         self.counter += 1
@@ -239,12 +241,26 @@ def gen_local_class(out, owner, ind, depth):
         head = "struct L%d {" % rnd.randint(1, 9)
         tail = "};"
     out.line((pad, None, False), (head, owner, True))
+    words = head.split()
+    out.cls.append(words[1] if words[0] in ("class", "struct") else None)
     for _ in range(rnd.randint(1, 2)):
+        access_specifier(out, ind, owner)
         if rnd.random() < 0.3:
+            out.after_spec = False
             out.line((" " * (ind + 2), None, False), ("int f%d = 1;" % rnd.randint(1, 9), owner, True))
         else:
             gen_func(out, owner, ind + 2, depth + 1, where="class")
+    out.cls.pop()
+    out.after_spec = False
     out.line((pad, None, False), (tail, owner, True))
+
+
+def access_specifier(out, ind, owner):
+    """C++: `public:` ... on a line of its own inside a class / struct body (tokens of the enclosing function, if any)"""
+    if out.lang != "C++" or not out.cls or out.cls[-1] is None or out.rnd.random() >= 0.35:
+        return
+    out.line((" " * out.rnd.choice([ind, ind + 1, ind + 2]), None, False), (maybe_trailing(out, out.rnd.choice(SPECIFIERS)), owner, True))
+    out.after_spec = True
 
 
 def params_for(out, where):
@@ -290,10 +306,34 @@ TS_TYPES = ["number", "void", "string", "Promise<Map<string, Array<Map<string, n
             "A.B.C<D.E, F.G<H>, I> | J<K, L<M, N<O, P>>> | Q"]
 
 
-def header_for(out, name, where):
+SPECIFIERS = ["public:", "private:", "protected:", "public slots:", "protected :", "private slots:"]
+
+
+def special_member(out, where):
+    """constructor / destructor of the innermost enclosing class (C++, Java, C#): a member WITHOUT a return type whose
+    name is the class name; after a C++ access specifier (`public:`) it is the first token behind the ':'"""
+    lang = out.lang
+    cls = out.cls[-1] if getattr(out, "cls", None) else None
+    if where != "class" or cls is None or lang not in ("C++", "Java", "C#"):
+        return None
+    p = 0.5 if getattr(out, "after_spec", False) else 0.22
+    out.after_spec = False
+    if out.rnd.random() >= p:
+        return None
+    return "ctor" if lang == "Java" or out.rnd.random() < 0.65 else "dtor"
+
+
+def header_for(out, name, where, special=None):
     """-> (prefix tokens owned by the parent, header text without params, suffix after params)"""
     lang = out.lang
     rnd = out.rnd
+    if special == "ctor":
+        pre = rnd.choice({"C++": ["", "", "", "explicit ", "inline "], "Java": ["", "public ", "protected ", "private "],
+                          "C#": ["", "public ", "internal ", "static ", "protected "]}[lang])
+        suf = rnd.choice(["", "", " throws Exception"]) if lang == "Java" else ""
+        return pre, name, suf
+    if special == "dtor":
+        return rnd.choice(["~", "~", "virtual ~"] if lang == "C++" else ["~"]), name, ""
     if lang in ("C", "C++"):
         pre = rnd.choice(["int ", "static int ", "void ", "unsigned long ", "struct s *", "const char *"])
         if lang == "C++" and rnd.random() < 0.2:
@@ -338,12 +378,15 @@ def gen_func(out, parent, ind, depth, where, body_len=None, style=None):
     lang = out.lang
     rnd = out.rnd
     name = out.fresh()
-    if lang == "C#" and rnd.random() < 0.08:
+    special = special_member(out, where)
+    if special:
+        name = out.cls[-1]
+    elif lang == "C#" and rnd.random() < 0.08:
         name = "@" + rnd.choice(["event", "class", "fn"]) + name[2:]    # verbatim identifier: ONE Name token `@event1`
     f = Func(len(out.funcs), name, parent)
     out.funcs.append(f)
     pad = " " * ind
-    pre, head, suf = header_for(out, name, where)
+    pre, head, suf = header_for(out, name, where, special)
     ps = params_for(out, where)
     arrow = suf == " =>"
     style = style or rnd.choice(["same", "same", "next", "multi"])
@@ -425,9 +468,14 @@ def gen_class(out, ind, depth=0):
         out.line((pad, None, False), (head, None, True))
     if head.startswith("enum"):
         out.line((" " * (ind + 2), None, False), ("A, B;", None, True))
+    words = head.split()
+    kw = words[1] if words[0] in ("public", "export") else words[0]
+    out.cls.append(name if kw in ("class", "struct", "enum") else None)
     for _ in range(rnd.randint(1, 4)):
+        access_specifier(out, ind, None)
         noise(out, ind + 2, None)
         r = rnd.random()
+        is_func = False
         if r < 0.2:
             if lang in ("JavaScript", "TypeScript"):
                 out.line((" " * (ind + 2), None, False), (rnd.choice(["x = 1;", "static y = {a: 1};", "z;"]), None, True))
@@ -439,9 +487,15 @@ def gen_class(out, ind, depth=0):
         elif r < 0.3 and lang in ("Java", "C#"):
             out.line((" " * (ind + 2), None, False), (rnd.choice(["abstract void q(int a);", "void q();", "int P { get; set; }" if lang == "C#" else "int q(int a);"]), None, True))
         elif r < 0.4 and depth < 2 and lang in ("Java", "C#", "C++"):
+            out.after_spec = False
             gen_class(out, ind + 2, depth + 1)
         else:
+            is_func = True
             gen_func(out, None, ind + 2, 0, where="class")
+        if not is_func:
+            out.after_spec = False     # only a function directly behind the specifier gets the raised constructor share
+    out.cls.pop()
+    out.after_spec = False
     out.line((pad, None, False), (tail, None, True))
 
 
@@ -459,19 +513,23 @@ def global_stmt(lang, rnd):
                        "typedef struct { int a; } t;", "extern int g(int a);", "int h(void);"])
 
 
-def gen_brace_program(lang, rnd, size=None, sweep=None):
+def gen_brace_program(lang, rnd, size=None, sweep=None, min_lines=None):
     out = Out(lang, rnd)
     if sweep is not None:
         # one function of exactly `sweep` body statements, in a random style
         if lang in ("Java", "C#"):
             out.line(("class K {", None, True))
+            out.cls.append("K")
             gen_func(out, None, 2, 0, where="class", body_len=sweep)
+            out.cls.pop()
             out.line(("}", None, True))
         else:
             gen_func(out, None, 0, 0, where="global", body_len=sweep)
         return out
     n = size or rnd.randint(1, 5)
-    for _ in range(n):
+    made = 0
+    while made < n or (min_lines is not None and len(out.lines) < min_lines):
+        made += 1
         noise(out, 0, None)
         r = rnd.random()
         if lang in ("Java", "C#"):
@@ -606,17 +664,21 @@ def gen_py_func(out, parent, ind, depth, body_len=None):
     return f
 
 
-def gen_python_program(rnd, size=None, sweep=None, stubs=False):
+def gen_python_program(rnd, size=None, sweep=None, stubs=False, min_lines=None):
     out = Out("Python", rnd)
     out.stubs = stubs
     if sweep is not None:
         gen_py_func(out, None, 0, 0, body_len=sweep)
         return out
     gen_py_block(out, None, 0, 0, False, True, n=size or rnd.randint(1, 5))
+    while min_lines is not None and len(out.lines) < min_lines:
+        gen_py_block(out, None, 0, 0, False, True, n=5)
     return out
 
 
-def generate(lang, rnd, size=None, sweep=None, stubs=False):
+def generate(lang, rnd, size=None, sweep=None, stubs=False, min_lines=None):
+    """`sweep`: one function of exactly that many body statements; `min_lines`: keep adding top-level items (functions,
+    classes, global code) until the program has at least that many lines (size ladder over the number of functions)"""
     if lang == "Python":
-        return gen_python_program(rnd, size, sweep, stubs)
-    return gen_brace_program(lang, rnd, size, sweep)
+        return gen_python_program(rnd, size, sweep, stubs, min_lines)
+    return gen_brace_program(lang, rnd, size, sweep, min_lines)
